@@ -16,15 +16,23 @@ import itertools
 
 import numpy as np
 
+from pmc.ref import c04_units
+
 ID = 'C04'
 RULE = ('cases = (instance, quantity, unit, T shape, P, x, S_elements, use_references, verbose, include_ZPE, '
         'per-species keyword block, reaction form, rev, act, del_m); all cases with at most k axes away from the base '
         'point of each kind (mode / species / empirical / reaction), plus the full product instance x quantity '
         'x unit (x form x rev x act) with default options, plus every wrapper x T shape x single option; a case is distinct by its full tuple and non-trivial '
         'when it uses a non-molar unit, an array/default T, a reaction form, or an option that changes the '
-        'dimensionless value')
+        'dimensionless value; T shapes include python int, integer-dtype, descending, unsorted-with-repeats, '
+        'segment-boundary arrays and a python list; del_m omitted / 2 / 0 / None passed explicitly; every case '
+        'repeats its call after overwriting the first result, compares its arguments with a copy taken before, '
+        'and (array T) edits the array in place and calls again; plus two-object histories '
+        '(how, A, B, quantity, form, unit): A, B, A again, then A.elements edited in place - B a separately '
+        'built object, a deepcopy or a to_dict/from_dict copy edited after creation')
 ASSUMPTIONS = ['the gas constant and the mass conversion factors are read from pmutt.constants (their accuracy '
-               'is property C12); the reference combines them independently of pmutt._get_R_adj',
+               'is property C12); the reference combines them independently of pmutt._get_R_adj; only the RATIO '
+               'between two table entries is also compared with SI conversion factors (pmc/ref/c04_units.py, 1e-7)',
                'one representative parameter set per model class (listed in bounds.instances)',
                'array temperatures only for the classes documented to accept them (Nasa, Nasa9, Shomate)',
                'a unit string outside the gas-constant table is outside the quantifier and is not explored']
@@ -736,6 +744,11 @@ def evaluate(c, ctx):
         ratio = R / ref_R(BASE_UNIT, elements)
         ctx.close('same quantity in two units differs by the unit factor only', obs,
                   np.asarray(obs_b, dtype=float) * ratio, sig, c, rtol=1e-10, atol=0.0, scale=scale)
+        if unit in c04_units.JOULE_PER_MOL:
+            # the same relation with a conversion factor that does not come from the library's table
+            ctx.close('two units differ by the SI conversion factor (independent of the gas-constant table)', obs,
+                      np.asarray(obs_b, dtype=float) * c04_units.ratio(unit, BASE_UNIT), sig, c,
+                      rtol=c04_units.RATIO_RTOL, atol=0.0, scale=scale)
 
     # ---- clause 3: options act identically on both forms
     dev = deviating_options(c)
@@ -980,9 +993,14 @@ LEVEL_TEXT = ('Deviation-bounded exhaustive product enumeration on the real gett
               'full instance x quantity x unit (x form x rev x act) product and a sweep of every wrapper x T shape x single '
               'option; each case compares get_X(units) with '
               'get_XoR[T] x R(unit) [x T] [/ M] built independently from pmutt.constants, two units against each '
-              'other, and the option shift on both forms.')
-LEVEL_NOTE = ('k = 3 (quick) / 5 (thorough); one parameter set per class; units outside the gas-constant table and '
-              'array T for classes that document a float T are outside the alphabet; accuracy of the tabulated '
-              'constants is C12.')
+              'other (library factor and SI factor), and the option shift on both forms; then repeats the call '
+              '(after overwriting the returned container), checks that the arguments were left alone and, for array '
+              'T, edits the array in place and calls again. Two-object histories (separately built, deep-copied and '
+              'to_dict/from_dict copies edited after creation) are evaluated A, B, A in one process.')
+LEVEL_NOTE = ('k = 3 (quick) / 5 (thorough); one parameter set per class (plus integer-typed variants and empirical '
+              'species with and without attached models); units outside the gas-constant table, array T for classes '
+              'that document a float T and a python-list T for the getters inherited from _ModelBase are outside '
+              'the alphabet; accuracy of the tabulated constants is C12 (only ratios of table entries are compared '
+              'with SI factors here); factory classmethods other than from_dict are not used to build objects.')
 TECHNIQUE = ('deviation-bounded exhaustive product enumeration on the implementation; relation oracle between '
              'each dimensional getter and its dimensionless twin with an independently assembled gas constant')
